@@ -1,6 +1,283 @@
-/- C15 — property theorems.  Stub. -/
+/-
+C15 — property theorems.  Laplacian smoothing (`SmootherBase.smooth`) leaves boundary and fixed
+points where they were, moves every other point to the average of its edge neighbours, has exactly
+the "every free point is its neighbours' average" states as fixed points (among them every affine
+image of a lattice), its neighbours are the cell edges of the blockMesh convention (tables
+regenerated from the source on every run), and the copy-back is consistent for all faces.
+-/
 import CBV.Model.C15
+import CBV.Lemmas.C15
+import Mathlib.Tactic.Ring
+import Mathlib.Tactic.Linarith
+import Mathlib.Tactic.FieldSimp
+import Mathlib.Algebra.Order.Field.Rat
 
 namespace CBV.C15
+open CBV
+
+/-! ### frame: boundary and fixed points do not move -/
+
+/-- for every grid, every fixed set, every number of iterations and all positions: a junction that is
+    on the boundary (`Junction.is_boundary`) or fixed keeps its position exactly; so does every index
+    outside the grid, and the number of points never changes -/
+theorem T_C15_frame (g : Grid) (fixed : List Nat) (k : Nat) (p : List V3) (i : Nat)
+    (h : isBoundary g i = true ∨ i ∈ fixed ∨ g.n ≤ i) :
+    pget (smooth g fixed k p) i = pget p i ∧ (smooth g fixed k p).length = p.length := by
+  refine ⟨?_, ?_⟩
+  · unfold smooth
+    apply pget_iter
+    intro q
+    apply pget_sweep_of_not_free
+    rcases h with h | h | h
+    · left; intro hm; have := (mem_inner g i).mp hm; simp [h] at this
+    · right; exact h
+    · left; intro hm; have := (mem_inner g i).mp hm; omega
+  · unfold smooth
+    exact iter_length _ (fun q => sweep_length _ _ _ q) k p
+
+/-- non-vacuity: the 2×2 quad map has exactly one inner junction (4); all others are boundary -/
+example : (List.range 9).map (isBoundary ⟨quadKind, [[0, 1, 4, 3], [1, 2, 5, 4], [3, 4, 7, 6], [4, 5, 8, 7]], 9⟩)
+    = [true, true, true, true, false, true, true, true, true] := by decide
+
+/-! ### the update is the average of the edge neighbours (Gauss–Seidel: current values) -/
+
+/-- Right after junction `j` (free, inside the grid, not its own neighbour) was visited, its position is the
+    average of the *current* positions of its neighbours — for every prefix `pre` of the visiting order,
+    so in particular for the junction visited last in a sweep. -/
+theorem T_C15_avg (pre : List Nat) (j : Nat) (nbrs : Nat → List Nat) (fixed : List Nat) (p : List V3)
+    (hfree : j ∉ fixed) (hself : j ∉ nbrs j) (hlen : j < p.length) :
+    let p' := sweep (pre ++ [j]) nbrs fixed p
+    pget p' j = avg ((nbrs j).map (pget p')) := by
+  intro p'
+  have hp' : p' = step nbrs fixed (sweep pre nbrs fixed p) j := by
+    simp only [p', sweep_append, sweep_cons, sweep_nil]
+  rw [hp']
+  unfold step
+  simp only [List.contains_iff_mem, hfree, if_false]
+  have hl : j < (sweep pre nbrs fixed p).length := by simpa using hlen
+  rw [pget_set_self _ _ _ hl]
+  congr 1
+  apply List.map_congr_left
+  intro n hn
+  rw [pget_set_ne]
+  rintro rfl; exact hself hn
+
+/-- the neighbour list of the grid never contains the junction itself -/
+theorem T_C15_not_self (g : Grid) (j : Nat) : j ∉ junctionNbrs g j := by
+  unfold junctionNbrs; simp [List.mem_filter]
+
+/-- non-vacuity of `T_C15_avg`: the centre of the 2×2 map moves to the average of its four edge neighbours -/
+example :
+    let g : Grid := ⟨quadKind, [[0, 1, 4, 3], [1, 2, 5, 4], [3, 4, 7, 6], [4, 5, 8, 7]], 9⟩
+    let p : List V3 := [⟨0,0,0⟩, ⟨1,0,0⟩, ⟨2,0,0⟩, ⟨0,1,0⟩, ⟨5/4,3/4,0⟩, ⟨2,1,0⟩, ⟨0,2,0⟩, ⟨1,2,0⟩, ⟨2,2,0⟩]
+    junctionNbrs g 4 = [1, 3, 5, 7] ∧ inner g = [4] ∧ pget (smooth g [] 1 p) 4 = ⟨1, 1, 0⟩ := by decide +kernel
+
+/-! ### fixed points -/
+
+/-- one sweep leaves the positions unchanged iff every free inner junction (inside the position list)
+    already is the average of its edge neighbours -/
+theorem T_C15_fixpoint (g : Grid) (fixed : List Nat) (p : List V3) :
+    smooth g fixed 1 p = p ↔
+      ∀ j, j < g.n → isBoundary g j = false → j ∉ fixed → j < p.length →
+        pget p j = avg ((junctionNbrs g j).map (pget p)) := by
+  unfold smooth
+  simp only [iter]
+  rw [sweep_eq_self_iff _ (inner_nodup g)]
+  constructor
+  · intro h j hj hb; exact h j ((mem_inner g j).mpr ⟨hj, hb⟩)
+  · intro h j hm; have := (mem_inner g j).mp hm; exact h j this.1 this.2
+
+/-- … and then any number of iterations leaves them unchanged -/
+theorem T_C15_fixpoint_iter (g : Grid) (fixed : List Nat) (p : List V3) (k : Nat) (h : smooth g fixed 1 p = p) :
+    smooth g fixed k p = p := by
+  unfold smooth at h ⊢
+  simp only [iter] at h
+  exact iter_fix _ p h k
+
+/-! ### a regular lattice with regular boundary is a fixed point -/
+
+/-
+Full statement (not proved for all sizes): for all nx ny ≥ 1, the structured quad map of nx × ny
+cells (and the nx × ny × nz hexahedral assembly) with the lattice coordinates of its points is
+`LatticeLike`, hence every affine image of the lattice is a fixed point of smoothing.
+Proved part: the implication below for *every* grid (`LatticeLike`, defined in `Lemmas/C15.lean`, is the
+Prop form of the model's decidable `latticeLikeB`), plus instances by kernel evaluation; the harness lets
+the model decide `latticeLikeB` for every regular grid it generates (request `c15.lattice`).
+-/
+/-- If the junction coordinates are lattice-like, every affine image `o + x·u + y·v + z·w` of the
+    coordinates is left unchanged by smoothing, for any number of iterations. -/
+theorem T_C15_lattice_partial (g : Grid) (fixed : List Nat) (coord : Nat → V3) (o u v w : V3) (p : List V3)
+    (hl : LatticeLike g fixed coord)
+    (hp : ∀ n, pget p n = o + (V3.smul (coord n).x u + V3.smul (coord n).y v + V3.smul (coord n).z w))
+    (k : Nat) : smooth g fixed k p = p := by
+  apply T_C15_fixpoint_iter
+  rw [T_C15_fixpoint]
+  intro j hj hb hf _
+  obtain ⟨hne, hs⟩ := hl j ((mem_inner g j).mpr ⟨hj, hb⟩) hf
+  have hfun : (pget p) = fun n => o + (V3.smul (coord n).x u + V3.smul (coord n).y v + V3.smul (coord n).z w) :=
+    funext hp
+  rw [hfun]
+  simp only []
+  unfold avg
+  rw [vsum_map_affine, hs, List.length_map]
+  have hlen : ((junctionNbrs g j).length : Rat) ≠ 0 := by
+    have : (junctionNbrs g j).length ≠ 0 := by
+      intro h0; exact hne (List.length_eq_zero_iff.mp h0)
+    exact_mod_cast this
+  apply V3.ext' <;> simp <;> field_simp
+
+/-- non-vacuity: the 3×3 and 4×2 structured maps are lattice-like (inner junctions: the lattice-interior points) -/
+example : LatticeLike (structQuads 3 3) [] (quadCoord 3) ∧ inner (structQuads 3 3) = [5, 6, 9, 10] :=
+  ⟨latticeLike_of_B _ _ _ (by decide +kernel), by decide +kernel⟩
+
+example : LatticeLike (structQuads 4 2) [6] (quadCoord 4) ∧ inner (structQuads 4 2) = [6, 7, 8] :=
+  ⟨latticeLike_of_B _ _ _ (by decide +kernel), by decide +kernel⟩
+
+/-! ### neighbours are the cell edges, never a diagonal -/
+
+/-- membership in `Junction.neighbours`, for every grid: another junction of the grid joined to `j` by
+    an entry of `edge_pairs` inside a cell that contains `j` -/
+theorem T_C15_neigh (g : Grid) (j t : Nat) :
+    t ∈ junctionNbrs g j ↔
+      t < g.n ∧ t ≠ j ∧ ∃ cell ∈ g.cells, j ∈ cell ∧ ∃ e ∈ g.kind.edgePairs,
+        (cell.getD e.1 0 = j ∧ cell.getD e.2 0 = t) ∨ (cell.getD e.1 0 = t ∧ cell.getD e.2 0 = j) := by
+  unfold junctionNbrs connected
+  simp only [List.mem_filter, List.mem_range, Bool.and_eq_true, bne_iff_ne, ne_eq, List.any_eq_true,
+    List.contains_iff_mem, Bool.or_eq_true, beq_iff_eq]
+
+/-- blockMesh numbering: local coordinates of corner `c` of a hexahedron -/
+def bits (c : Nat) : Bool × Bool × Bool := (c % 4 == 1 || c % 4 == 2, c % 4 == 2 || c % 4 == 3, c ≥ 4)
+
+/-- two corners of a hexahedron are joined by an edge iff they differ in exactly one coordinate -/
+def hexAdjacent (a b : Nat) : Bool :=
+  let x := bits a; let y := bits b
+  ((if x.1 != y.1 then 1 else 0) + (if x.2.1 != y.2.1 then 1 else 0) + (if x.2.2 != y.2.2 then 1 else 0)) == 1
+
+/-- two corners of a quadrilateral are joined by an edge iff they are consecutive -/
+def quadAdjacent (a b : Nat) : Bool := b == (a + 1) % 4 || a == (b + 1) % 4
+
+/-- the generated `HexCell.edge_pairs` / `QuadCell.edge_pairs` are exactly the edges of the cell
+    (all 12 / 4 of them, in some direction; never a face or cell diagonal) and stay inside the cell -/
+theorem T_C15_edge_tables :
+    (∀ a ∈ List.range 8, ∀ b ∈ List.range 8,
+      (((a, b) ∈ CBV.Gen.hexEdgePairs ∨ (b, a) ∈ CBV.Gen.hexEdgePairs) ↔ hexAdjacent a b = true)) ∧
+    (∀ e ∈ CBV.Gen.hexEdgePairs, e.1 < 8 ∧ e.2 < 8) ∧
+    (∀ a ∈ List.range 4, ∀ b ∈ List.range 4,
+      (((a, b) ∈ CBV.Gen.quadEdgePairs ∨ (b, a) ∈ CBV.Gen.quadEdgePairs) ↔ quadAdjacent a b = true)) ∧
+    (∀ e ∈ CBV.Gen.quadEdgePairs, e.1 < 4 ∧ e.2 < 4) := by decide
+
+/-- the generated side tables are the six faces of the hexahedron (constant in one coordinate) and the
+    four edges of the quadrilateral: what `CellBase.boundary` adds for a side without neighbour -/
+def hexSideOk (s : List Nat) : Bool :=
+  s.length == 4 && s.all (· < 8) &&
+    ([0, 1, 2].any fun ax => [true, false].any fun v =>
+      (List.range 8).all fun c =>
+        (s.contains c) == ((match ax with | 0 => (bits c).1 | 1 => (bits c).2.1 | _ => (bits c).2.2) == v))
+
+def quadSideOk (s : List Nat) : Bool :=
+  match s with
+  | [a, b] => a < 4 && b < 4 && quadAdjacent a b
+  | _ => false
+
+/-- no two sides of the table have the same corner set -/
+def sidesDistinct (ss : List (List Nat)) : Bool :=
+  (List.range ss.length).all fun i => (List.range ss.length).all fun j =>
+    i == j || !setEq (ss.getD i []) (ss.getD j [])
+
+theorem T_C15_side_tables :
+    CBV.Gen.hexSideIdx.length = 6 ∧ CBV.Gen.hexSideIdx.all hexSideOk = true ∧
+    sidesDistinct CBV.Gen.hexSideIdx = true ∧
+    CBV.Gen.quadSideIdx.length = 4 ∧ CBV.Gen.quadSideIdx.all quadSideOk = true ∧
+    sidesDistinct CBV.Gen.quadSideIdx = true := by decide
+
+/-- for a hexahedral grid: `to` is a neighbour of `j` iff some cell holds `j` and `to` at two corners that
+    differ in exactly one coordinate of the blockMesh numbering -/
+theorem T_C15_neigh_hex (cells : List (List Nat)) (n j t : Nat) :
+    t ∈ junctionNbrs ⟨hexKind, cells, n⟩ j ↔
+      t < n ∧ t ≠ j ∧ ∃ cell ∈ cells, j ∈ cell ∧ ∃ a b, a < 8 ∧ b < 8 ∧ hexAdjacent a b = true ∧
+        cell.getD a 0 = j ∧ cell.getD b 0 = t := by
+  rw [T_C15_neigh]
+  have T := T_C15_edge_tables
+  constructor
+  · rintro ⟨h1, h2, cell, hc, hj, e, he, h⟩
+    refine ⟨h1, h2, cell, hc, hj, ?_⟩
+    have hlt := T.2.1 e he
+    have hadj : hexAdjacent e.1 e.2 = true :=
+      (T.1 e.1 (List.mem_range.mpr hlt.1) e.2 (List.mem_range.mpr hlt.2)).mp (Or.inl he)
+    have hadj' : hexAdjacent e.2 e.1 = true :=
+      (T.1 e.2 (List.mem_range.mpr hlt.2) e.1 (List.mem_range.mpr hlt.1)).mp (Or.inr he)
+    rcases h with ⟨ha, hb⟩ | ⟨ha, hb⟩
+    · exact ⟨e.1, e.2, hlt.1, hlt.2, hadj, ha, hb⟩
+    · exact ⟨e.2, e.1, hlt.2, hlt.1, hadj', hb, ha⟩
+  · rintro ⟨h1, h2, cell, hc, hj, a, b, ha, hb, hadj, hja, hjb⟩
+    refine ⟨h1, h2, cell, hc, hj, ?_⟩
+    rcases (T.1 a (List.mem_range.mpr ha) b (List.mem_range.mpr hb)).mpr hadj with he | he
+    · exact ⟨(a, b), he, Or.inl ⟨hja, hjb⟩⟩
+    · exact ⟨(b, a), he, Or.inr ⟨hjb, hja⟩⟩
+
+/-- for a quad map: `to` is a neighbour of `j` iff some face holds them at consecutive corners -/
+theorem T_C15_neigh_quad (cells : List (List Nat)) (n j t : Nat) :
+    t ∈ junctionNbrs ⟨quadKind, cells, n⟩ j ↔
+      t < n ∧ t ≠ j ∧ ∃ cell ∈ cells, j ∈ cell ∧ ∃ a b, a < 4 ∧ b < 4 ∧ quadAdjacent a b = true ∧
+        cell.getD a 0 = j ∧ cell.getD b 0 = t := by
+  rw [T_C15_neigh]
+  have T := T_C15_edge_tables
+  constructor
+  · rintro ⟨h1, h2, cell, hc, hj, e, he, h⟩
+    refine ⟨h1, h2, cell, hc, hj, ?_⟩
+    have hlt := T.2.2.2 e he
+    have hadj : quadAdjacent e.1 e.2 = true :=
+      (T.2.2.1 e.1 (List.mem_range.mpr hlt.1) e.2 (List.mem_range.mpr hlt.2)).mp (Or.inl he)
+    have hadj' : quadAdjacent e.2 e.1 = true :=
+      (T.2.2.1 e.2 (List.mem_range.mpr hlt.2) e.1 (List.mem_range.mpr hlt.1)).mp (Or.inr he)
+    rcases h with ⟨ha, hb⟩ | ⟨ha, hb⟩
+    · exact ⟨e.1, e.2, hlt.1, hlt.2, hadj, ha, hb⟩
+    · exact ⟨e.2, e.1, hlt.2, hlt.1, hadj', hb, ha⟩
+  · rintro ⟨h1, h2, cell, hc, hj, a, b, ha, hb, hadj, hja, hjb⟩
+    refine ⟨h1, h2, cell, hc, hj, ?_⟩
+    rcases (T.2.2.1 a (List.mem_range.mpr ha) b (List.mem_range.mpr hb)).mpr hadj with he | he
+    · exact ⟨(a, b), he, Or.inl ⟨hja, hjb⟩⟩
+    · exact ⟨(b, a), he, Or.inr ⟨hjb, hja⟩⟩
+
+/-- non-vacuity: in the 2×2 map the centre's neighbours are the four edge mid points, not the corners -/
+example : junctionNbrs (structQuads 2 2) 4 = [1, 3, 5, 7] := by decide
+
+/-! ### copy back -/
+
+/-- `SketchSmoother.backport`: corner `c` of face `f` receives the smoothed position of its point, so
+    all faces that share a point receive the same position -/
+theorem T_C15_backport (quads : List (List Nat)) (p : List V3) (f c : Nat) :
+    ((backportSketch quads p)[f]?).bind (·[c]?) = ((quads[f]?).bind (·[c]?)).map (pget p) := by
+  unfold backportSketch
+  rw [List.getElem?_map]
+  cases quads[f]? with
+  | none => rfl
+  | some q => simp [List.getElem?_map]
+
+theorem T_C15_backport_shared (quads : List (List Nat)) (p : List V3) (f1 c1 f2 c2 i : Nat)
+    (h1 : (quads[f1]?).bind (·[c1]?) = some i) (h2 : (quads[f2]?).bind (·[c2]?) = some i) :
+    ((backportSketch quads p)[f1]?).bind (·[c1]?) = some (pget p i) ∧
+    ((backportSketch quads p)[f2]?).bind (·[c2]?) = some (pget p i) := by
+  rw [T_C15_backport, T_C15_backport, h1, h2]; exact ⟨rfl, rfl⟩
+
+/-- `MappedSketch.positions` after the copy-back returns the smoothed position of every point that occurs in a quad -/
+theorem T_C15_backport_positions (quads : List (List Nat)) (p : List V3) (n i : Nat)
+    (hi : i < n) (hm : i ∈ quads.flatten) :
+    (positionsOf quads (backportSketch quads p) n).getD i V3.zero = pget p i := by
+  unfold positionsOf backportSketch
+  have hflat : (quads.map (fun q => q.map (pget p))).flatten = quads.flatten.map (pget p) := by
+    rw [List.map_flatten]
+  rw [hflat]
+  have hidx : quads.flatten.idxOf i < quads.flatten.length := List.idxOf_lt_length_iff.mpr hm
+  simp only [List.getD_eq_getElem?_getD, List.getElem?_map, List.getElem?_range hi, Option.map_some,
+    Option.getD_some, List.getElem?_eq_getElem hidx]
+  simp [pget, List.getD_eq_getElem?_getD]
+
+/-- `MeshSmoother.backport`: vertex `i` receives point `i` -/
+theorem T_C15_backport_mesh (p : List V3) : backportMesh p = p := by
+  unfold backportMesh
+  apply List.ext_getElem (by simp)
+  intro i h1 h2
+  simp [pget, List.getD_eq_getElem?_getD, h2]
 
 end CBV.C15
